@@ -34,7 +34,7 @@ def shards(tier):
 def required_counters(tier):
     return {'judged:centre': 200, 'judged:boundary-probe': 1000, 'judged:length-vs-scale': 300, 'judged:class': 200,
             'lane:CircleSkyRegion': 10, 'lane:EllipseSkyRegion': 10, 'lane:RectangleSkyRegion': 10, 'lane:CircleAnnulusSkyRegion': 10,
-            'lane:EllipseAnnulusSkyRegion': 10, 'lane:RectangleAnnulusSkyRegion': 10}
+            'lane:EllipseAnnulusSkyRegion': 10, 'lane:RectangleAnnulusSkyRegion': 10, 'region-in-other-frame': 30}
 
 
 CLASSES = ['CircleSkyRegion', 'EllipseSkyRegion', 'RectangleSkyRegion', 'CircleAnnulusSkyRegion', 'EllipseAnnulusSkyRegion',
@@ -51,6 +51,8 @@ def generate(rng, tier, shard, nshards):
         yield {'lane': cls, 'cls': cls, 'wcs': w, 'dx': rng.uniform(-300, 300), 'dy': rng.uniform(-300, 300),
                'a_px': rng.uniform(1, 50), 'ratio': rng.uniform(1.25, 4.0), 'wide': rng.random() < 0.5,
                'inner': rng.uniform(0.2, 0.8), 'angle_deg': ang, 'angle_unit': unit, 'size_unit': rng.choice(['arcsec', 'arcmin', 'deg']),
+               'size_unit2': rng.choice(['arcsec', 'arcmin', 'deg', 'mas']),
+               'other_frame': (rng.choice([f for f in ('icrs', 'galactic', 'fk5', 'fk4') if f != w['frame']]) if rng.random() < 0.35 else None),
                'rs': rng.randrange(2 ** 31)}
 
 
@@ -63,12 +65,16 @@ def run_case(case, obs):
     scale = case['wcs']['scale']          # deg / px (square pixels)
     x0, y0 = w.wcs.crpix[0] - 1 + case['dx'], w.wcs.crpix[1] - 1 + case['dy']
     centre = w.pixel_to_world(x0, y0)
+    if case.get('other_frame'):
+        # the sky region may be given in another celestial frame than the image's: its angle is then measured from that
+        # frame's north (the oracle offsets are made in the region's own frame and pushed through world_to_pixel)
+        centre = centre.transform_to(case['other_frame'])
+        obs.count('region-in-other-frame')
     ref = w.pixel_to_world(w.wcs.crpix[0] - 1, w.wcs.crpix[1] - 1)
     major = case['a_px'] * scale * u.deg
     minor = major / case['ratio']
     width, height = (major, minor) if case['wide'] else (minor, major)
-    su = u.Unit(case['size_unit'])
-    width, height = width.to(su), height.to(su)
+    width, height = width.to(u.Unit(case['size_unit'])), height.to(u.Unit(case.get('size_unit2', case['size_unit'])))
     angle = u.Quantity(case['angle_deg'], u.deg).to(u.Unit(case['angle_unit']))
     cls = getattr(regions, case['cls'])
     name = case['cls']
@@ -89,6 +95,7 @@ def run_case(case, obs):
     obs.check(type(pix).__name__ == name.replace('Sky', 'Pixel'), 'to_pixel-wrong-class', f'{name}.to_pixel gave {type(pix).__name__}', 'class')
     # centre
     ex, ey = w.world_to_pixel(centre)
+    ref = ref.transform_to(centre.frame) if case.get('other_frame') else ref
     d = math.hypot(float(pix.center.x) - float(ex), float(pix.center.y) - float(ey))
     obs.check(d <= 1e-6, 'pixel-centre-not-wcs-image-of-sky-centre', f'{name}: pixel centre is {d:.3g} px from world_to_pixel(sky centre)', 'centre')
     cx, cy = float(ex), float(ey)
